@@ -610,6 +610,7 @@ func decodeBlock(w wire) (*decoded, error) {
 }
 
 type verdicts struct {
+	histDiff  string
 	decodeErr string
 	vhFailed  []uint64
 	vhOut     []byte
@@ -644,7 +645,16 @@ type rcase struct {
 
 // runValidators decodes w with the repository's decoder, runs the three
 // validators and records the model cases.
-func runValidators(cf *coqFile, w wire, x vctx, rc rcase) verdicts {
+func newValidator(x vctx) *consensus.HeaderValidator {
+	return consensus.NewHeaderValidatorWithMode(consensus.NetworkConfig{
+		ActiveSlotCoeff: common.GenesisRat{Rat: x.f}, SlotsPerKESPeriod: x.spk, MaxKESEvolutions: x.maxev}, x.mode)
+}
+
+// runValidators decodes w and runs the validators.  shared, if not nil, is a
+// long-lived HeaderValidator that has already validated other headers: its
+// verdict is the one reported (and given to the stateless model); a fresh
+// validator runs next to it and any difference is a history dependence.
+func runValidators(cf *coqFile, w wire, x vctx, rc rcase, shared *consensus.HeaderValidator) verdicts {
 	var v verdicts
 	d, err := decodeBlock(w)
 	if err != nil {
@@ -652,8 +662,7 @@ func runValidators(cf *coqFile, w wire, x vctx, rc rcase) verdicts {
 		return v
 	}
 	// 1. consensus.HeaderValidator.ValidateHeader on the decoded fields and the ORIGINAL body bytes
-	val := consensus.NewHeaderValidatorWithMode(consensus.NetworkConfig{
-		ActiveSlotCoeff: common.GenesisRat{Rat: x.f}, SlotsPerKESPeriod: x.spk, MaxKESEvolutions: x.maxev}, x.mode)
+	val := newValidator(x)
 	in := &consensus.ValidateHeaderInput{
 		Slot: d.f.Slot, BlockNumber: d.f.BlockNo, PrevHash: d.f.Prev, IssuerVkey: d.f.Issuer, VrfKey: d.f.VrfKey,
 		VrfProof: d.f.Proof, VrfOutput: d.f.Out, KesSignature: d.sig, HeaderBodyCbor: d.body,
@@ -672,6 +681,21 @@ func runValidators(cf *coqFile, w wire, x vctx, rc rcase) verdicts {
 		v.vhFailed = append(v.vhFailed, 98) // Valid flag inconsistent with the error list
 	}
 	v.vhOut = res.VrfOutput
+	if shared != nil {
+		var resS *consensus.ValidateResult
+		if p, pv := vh.Recover(func() { resS = shared.ValidateHeader(in) }); p {
+			v.decodeErr = fmt.Sprintf("ValidateHeader panicked: %v", pv)
+			return v
+		}
+		fs := classifyVH(resS.Errors)
+		if resS.Valid != (len(resS.Errors) == 0) {
+			fs = append(fs, 98)
+		}
+		if fmt.Sprint(fs) != fmt.Sprint(v.vhFailed) || !bytes.Equal(resS.VrfOutput, res.VrfOutput) {
+			v.histDiff = fmt.Sprintf("a validator that validated other headers before fails checks %v, a fresh validator %v", fs, v.vhFailed)
+		}
+		v.vhFailed, v.vhOut = fs, resS.VrfOutput
+	}
 	// 2. ledger.VerifyBlock
 	var ok bool
 	var verr error
@@ -978,15 +1002,32 @@ func runScenario(c *vh.Ctx, seed uint64, layout, kind string, onlyClass string) 
 		return cur.Cmp(lo) >= 0 && cur.Cmp(hi) < 0
 	}
 
+	// one long-lived HeaderValidator per configuration: every class of the scenario is validated
+	// by an instance that has validated the genuine header (and the earlier classes) before
+	vals := map[string]*consensus.HeaderValidator{}
+	valFor := func(xx vctx) *consensus.HeaderValidator {
+		k := fmt.Sprintf("%s/%d/%d/%d", xx.f.String(), xx.spk, xx.maxev, xx.mode)
+		if vals[k] == nil {
+			vals[k] = newValidator(xx)
+		}
+		return vals[k]
+	}
+	var checkOn func(val *consensus.HeaderValidator, class string, w wire, xx vctx, genuine bool, ex expect)
 	check := func(class string, w wire, xx vctx, genuine bool, ex expect) {
+		checkOn(valFor(xx), class, w, xx, genuine, ex)
+	}
+	checkOn = func(val *consensus.HeaderValidator, class string, w wire, xx vctx, genuine bool, ex expect) {
 		if onlyClass != "" && onlyClass != class {
 			return
 		}
 		rc.Class = class
 		c.Begin(rc)
-		v := runValidators(cf, w, xx, rc)
+		v := runValidators(cf, w, xx, rc, val)
+		if v.histDiff != "" {
+			c.Res.Violate("monitor", layout+":"+class+"-verdict-depends-on-history", "validation must be a function of (header, context): "+v.histDiff, rc)
+		}
 		count(class)
-		if len(c.Res.Samples) < 6 && (class == "genuine" || class == "resign-seq" || class == "body") {
+		if len(c.Res.Samples) < 6 && (class == "genuine" || class == "hist-opcert-period-rewritten" || class == "body") {
 			c.Res.Sample(map[string]any{"layout": layout, "kind": kind, "class": class, "slot": w.f.Slot, "kes_period": w.f.KPer, "spk": xx.spk, "max_ev": xx.maxev,
 				"validate_header_failed": v.vhFailed, "verify_block": v.vb, "opcert": []uint64{v.ocSig, v.ocPer}, "decode_error": v.decodeErr})
 		}
@@ -1260,6 +1301,91 @@ func runScenario(c *vh.Ctx, seed uint64, layout, kind string, onlyClass string) 
 			xx.pool, xx.maxev = sc.totalStake, 200
 			check("window-beyond-key-lifetime", wire{tpraos: tp, f: fieldsOf(h2), sig: h2.Signature, segs: sc.segs}, xx, false, expect{vh: true, vb: true})
 		}
+	}
+
+	// --- validation HISTORIES on one long-lived validator (the model is evaluated statelessly on every step)
+	{
+		// certificate start period rewritten, everything else (hot key, counter, cold signature) unchanged,
+		// KES signature made by the hot key at the evolution matching the rewritten period; the window is
+		// kept open (max evolutions 64) so that only the cold signature stands against it
+		rewrite := func(bw wire, kesSeed []byte, t uint64) (wire, bool) {
+			f := bw.f.clone()
+			var t2 uint64
+			switch {
+			case f.KPer > 0 && t+1 < 64:
+				f.KPer, t2 = f.KPer-1, t+1
+			case t >= 1:
+				f.KPer, t2 = f.KPer+1, t-1
+			default:
+				return bw, false
+			}
+			s2, e := newKesSigner(kesSeed, t2)
+			if e != nil {
+				return bw, false
+			}
+			w := bw
+			w.f = f
+			sg, e := kes.Sign(s2.sk, s2.period, w.bodyBytes())
+			if e != nil {
+				return bw, false
+			}
+			w.sig = sg
+			return w, true
+		}
+		xh := x
+		xh.maxev = 64
+		rej := expect{vh: true, oc: true}
+		if wr, ok := rewrite(base, sc.pool.kesSeed, sc.t); ok {
+			// genuine -> rewritten -> genuine -> rewritten
+			v1 := newValidator(xh)
+			checkOn(v1, "hist-genuine", base, xh, true, expect{})
+			checkOn(v1, "hist-opcert-period-rewritten", wr, xh, false, rej)
+			checkOn(v1, "hist-genuine", base, xh, true, expect{})
+			checkOn(v1, "hist-opcert-period-rewritten", wr, xh, false, rej)
+			// tampered -> genuine -> tampered
+			v2 := newValidator(xh)
+			checkOn(v2, "hist-opcert-period-rewritten-first", wr, xh, false, rej)
+			checkOn(v2, "hist-genuine", base, xh, true, expect{})
+			checkOn(v2, "hist-opcert-period-rewritten", wr, xh, false, rej)
+			// two pools interleaved on one validator
+			sc2 := *sc
+			sc2.pool = other
+			if ksB, e := newKesSigner(other.kesSeed, sc.t); e == nil {
+				ocB := sc2.opCert(ksB.pk, sc.seq, sc.c)
+				for try := 0; try < 300; try++ {
+					nB := r.Bytes(32)
+					hB, eB := sc2.build(ksB, ocB, other.coldPub, sc2.input(sc.slot, nB, sc.totalStake), sc.mode)
+					if eB != nil {
+						continue
+					}
+					baseB := wire{tpraos: tp, f: fieldsOf(hB), sig: hB.Signature, segs: sc.segs}
+					xB := xh
+					xB.nonce, xB.pool, xB.reg = nB, sc.totalStake, nil
+					wrB, okB := rewrite(baseB, other.kesSeed, sc.t)
+					v3 := newValidator(xh)
+					checkOn(v3, "hist-genuine", base, xh, true, expect{})
+					checkOn(v3, "hist-genuine-pool-b", baseB, xB, true, expect{})
+					checkOn(v3, "hist-opcert-period-rewritten", wr, xh, false, rej)
+					if okB {
+						checkOn(v3, "hist-opcert-period-rewritten-pool-b", wrB, xB, false, rej)
+					}
+					// pool B presents pool A's certificate (A's hot key and cold signature under B's issuer key)
+					fX := baseB.f.clone()
+					fX.Hot, fX.Seq, fX.KPer, fX.CSig = base.f.Hot, base.f.Seq, base.f.KPer, base.f.CSig
+					wX := baseB
+					wX.f = fX
+					if sg, e := kes.Sign(ks.sk, ks.period, wX.bodyBytes()); e == nil {
+						wX.sig = sg
+						checkOn(v3, "hist-foreign-certificate-pool-b", wX, xB, false, rej)
+					}
+					checkOn(v3, "hist-genuine-pool-b", baseB, xB, true, expect{})
+					checkOn(v3, "hist-genuine", base, xh, true, expect{})
+					break
+				}
+			}
+		}
+		// every earlier tamper class once more on the scenario's long-lived validator, after all of the above
+		check("hist-genuine-last", base, x, true, expect{})
 	}
 
 	// --- unit cases of the ledger helpers on this scenario's certificate
